@@ -630,6 +630,8 @@ fn gen_steps(rng: &mut Rng, i: u64) -> Vec<Step> {
             2 => Action::BadFilter(gen::token_dn(tok, rng)),
             3 => Action::PagedClash(gen::token_dn(tok, rng)),
             4 | 5 => Action::Normal(Call::Search(SearchSpec { opts: None, ..gen::gen_search(rng, tok) })),
+            // an Abandon is an operation too: whatever was set for it is spent on it
+            6 if rng.bool() => Action::Normal(Call::Abandon(1 + rng.below(50) as i32)),
             _ => Action::Normal(gen::gen_call(rng, tok, false, false)),
         };
         let controls = if rng.chance(2, 5) { Some({ let mut c = gen::gen_req_controls(rng); c.retain(|c| c.oid != b"1.2.840.113556.1.4.319"); c }) } else { None };
